@@ -34,8 +34,8 @@ type RDoc struct {
 type RHist struct {
 	Burst  bool     `json:"burst,omitempty"` // feed the documents back to back while the update loop is held inside its first build
 	ID     string   `json:"id"`
-	Fmt    string   `json:"fmt"`  // yaml | json
-	Via    string   `json:"via"`  // unmarshal | load
+	Fmt    string   `json:"fmt"` // yaml | json
+	Via    string   `json:"via"` // unmarshal | load
 	Docs   []RDoc   `json:"docs"`
 	Probes []string `json:"probes"` // addresses to look up after every good load
 	Users  []string `json:"users"`  // user names to look for in the bound scope
